@@ -39,7 +39,7 @@ def _fix(s):
 
 def run_supervised(sup, argv, cwd, prefix, rules=None, seed=None, hold_permille=0, hold_maxms=0,
                    timeout_ms=30000, env=None, tag="t", umask=None, fd9=None, nofile=None, cpus=None,
-                   during=None, during_delay=0.5):
+                   during=None, during_delay=0.5, stdout_path=None):
     """rules: list of (action, p1, p2, sys, nth, path).  during: a callable the ENVIRONMENT runs `during_delay` seconds
     after the program was started (another process renaming / removing / rewriting files while the copy is under way;
     combine with a `hold` rule that keeps the program at a known point for longer than the delay)"""
@@ -77,9 +77,16 @@ def run_supervised(sup, argv, cwd, prefix, rules=None, seed=None, hold_permille=
         timer = threading.Timer(during_delay, during)
         timer.start()
     try:
-        r = subprocess.run(cmd, cwd=cwd, capture_output=True, env=e, timeout=timeout_ms / 1000.0 + 30, preexec_fn=pre,
-                           close_fds=(fd9 is None))
-        code, so, se = r.returncode, r.stdout, r.stderr
+        if stdout_path is not None:
+            # the program's standard output goes to a file of the caller's choice (e.g. /dev/full: every write fails with ENOSPC)
+            with open(stdout_path, "wb") as so_f:
+                r = subprocess.run(cmd, cwd=cwd, stdout=so_f, stderr=subprocess.PIPE, env=e, timeout=timeout_ms / 1000.0 + 30, preexec_fn=pre,
+                                   close_fds=(fd9 is None))
+            code, so, se = r.returncode, b"", r.stderr
+        else:
+            r = subprocess.run(cmd, cwd=cwd, capture_output=True, env=e, timeout=timeout_ms / 1000.0 + 30, preexec_fn=pre,
+                               close_fds=(fd9 is None))
+            code, so, se = r.returncode, r.stdout, r.stderr
     except subprocess.TimeoutExpired as ex:
         code, so, se = 124, ex.stdout or b"", ex.stderr or b""
     finally:
